@@ -167,11 +167,18 @@ def worker_waiting(args):
         frames = [framed(b, v) for b, v in zip(bodies, variant)]
         plan = [interesting_cuts(srng, f, f.index(b"\r\n\r\n") + 4) for f in frames]
         sc = {"kind": "waiting", "seed": "%s/%d/%d" % (seed, shard, it), "cuts": plan, "lengths": [len(b) for b in bodies]}
+        # sometimes a well-framed body that is no request or notification (a response of the client, an empty object) travels in the
+        # same write in front of a request: the server may skip it or give up, but it must not sit on the request behind it
+        reqs = [i for i, b in enumerate(bodies) if i >= 2 and b'"id"' in b and b'"shutdown"' not in b]
+        bad_at = srng.choice(reqs) if srng.random() < .15 and reqs else None
+        bad = framed(srng.choice([b'{"jsonrpc":"2.0","id":"client-7","result":null}', b'{}', b'[]', b'{"jsonrpc":"2.0","id":3,"error":{"code":1,"message":"x"}}']))
+        sc["undecodable_frame_in_front_of_message"] = bad_at
         r = Run(binpath)
         try:
             ok = True
-            for f, cuts, body in zip(frames, plan, bodies):
+            for mi, (f, cuts, body) in enumerate(zip(frames, plan, bodies)):
                 segs = [f[a:b] for a, b in zip([0] + cuts, cuts + [len(f)])]
+                if mi == bad_at: segs = [bad + f]
                 for sg in segs:
                     t0 = time.monotonic()
                     while not blocked_on_stdin(r.p.pid):
@@ -186,6 +193,8 @@ def worker_waiting(args):
                     while not any(m.get("id") == o["id"] and "method" not in m for m in r.msgs):
                         if r.eof or time.monotonic() - t0 > 10: break
                         r.pump(0.01)
+                    if mi == bad_at and (r.eof or r.p.poll() is not None) and not any(m.get("id") == o["id"] and "method" not in m for m in r.msgs):
+                        part.cnt("waiting_sessions_ended_at_undecodable_frame"); ok = None; break       # gave up at the undecodable frame: fine
                     if not any(m.get("id") == o["id"] and "method" not in m for m in r.msgs):
                         part.fail("request %d (%s, %d-byte body, written in %d segment(s) after frames with bodies of %r bytes) got no answer within 10 s although it was written completely and the server is waiting for input"
                                   % (o["id"], o["method"], len(body), len(segs), sc["lengths"][:bodies.index(body)][-2:]), sc); ok = False; break
